@@ -101,7 +101,14 @@ pub fn run_case(ctx: &mut Ctx, fam: &str, k: u64, r: &mut Rng) {
     let (d, f): (Vec<usize>, u64) = if fam == "grid" {
         (all_shapes(4, 3)[(k % 120) as usize].clone(), k / 120)
     } else {
-        (rand_shape(r, 5, 6), r.below(FUNCS as usize) as u64)
+        let mut d = rand_shape(r, 5, 6);
+        if r.chance(1, 4) {
+            // one long dimension: reductions / maps over 17..70 elements meet blocked loops' tails
+            d = rand_shape(r, 3, 3);
+            let i = r.below(d.len());
+            d[i] = r.range(9, 70);
+        }
+        (d, r.below(FUNCS as usize) as u64)
     };
     let n = numel(&d);
     let rank = d.len();
